@@ -273,7 +273,7 @@ func evalC04x(cs *c04xCase) (sig, msg string, nontrivial bool, note string) {
 			wantName, wantArgs := "tgt", strings.Join(l, ", ")
 			if ok {
 				wantName, wantArgs = "tgq", strings.Join(exp, ", ")
-				if strings.Join(exp, ", ") != strings.Join(l, ", ") || len(l) > 30 {
+				if strings.Join(exp, ", ") != strings.Join(l, ", ") || len(l) > 30 || len(cs.Pattern) > 6 {
 					nontrivial = true
 				}
 			}
@@ -336,6 +336,38 @@ func c04xDraw(rt *rapid.T) *c04xCase {
 		}
 		if !hasChange {
 			cs.Lines[0].Prefix = "-"
+		}
+		return cs
+	}
+	if rapid.IntRange(0, 2).Draw(rt, "deepPattern") == 0 {
+		// Patterns beyond the bound of the exhaustive part: up to 9 symbols
+		// with up to 5 elisions, repeated metavariables, short lists over a
+		// three-letter alphabet (many candidate positions, many repeats).
+		cs := &c04xCase{Mode: "long-list"}
+		nl := rapid.IntRange(2, 5).Draw(rt, "nLists")
+		for i := 0; i < nl; i++ {
+			n := rapid.IntRange(2, 9).Draw(rt, fmt.Sprintf("len%d", i))
+			l := make([]string, n)
+			for j := range l {
+				l[j] = rapid.SampledFrom([]string{"a", "b", "c"}).Draw(rt, fmt.Sprintf("e%d_%d", i, j))
+			}
+			cs.Lists = append(cs.Lists, l)
+		}
+		np := rapid.IntRange(4, 9).Draw(rt, "patLen")
+		dots := 0
+		for i := 0; i < np; i++ {
+			k := rapid.IntRange(0, 9).Draw(rt, fmt.Sprintf("sym%d", i))
+			switch {
+			case k <= 4 && dots < 5 && (len(cs.Pattern) == 0 || cs.Pattern[len(cs.Pattern)-1] != "..."):
+				cs.Pattern = append(cs.Pattern, "...")
+				dots++
+			case k <= 6:
+				cs.Pattern = append(cs.Pattern, "x")
+			case k <= 8:
+				cs.Pattern = append(cs.Pattern, "y")
+			default:
+				cs.Pattern = append(cs.Pattern, rapid.SampledFrom([]string{"a", "b"}).Draw(rt, fmt.Sprintf("atom%d", i)))
+			}
 		}
 		return cs
 	}
